@@ -15,7 +15,7 @@ import regex
 from ..core import pickledis, yamlsub
 from ..core.data import LANG_DIR, LangData, module_literal
 from ..core.effects import fold_str
-from ..core.index import Index, iter_own_nodes
+from ..core.index import Index, iter_own_nodes, iter_own_stmts
 from ..core.repo import AnalysisError
 
 LEVEL = "translation_validation"
@@ -402,11 +402,21 @@ def tz_model(ctx, rule):
             if isinstance(e.func, ast.Attribute) and e.func.attr == "get" and len(e.args) == 2:
                 base = ev(e.func.value, env, depth + 1)
                 return base.get(ev(e.args[0], env, depth + 1), ev(e.args[1], env, depth + 1))
+            if isinstance(e.func, ast.Attribute) and e.func.attr == "pop" and 1 <= len(e.args) <= 2 and not e.keywords:
+                # reads like .get() the first time - and takes the key out of the module-level source table for every later build
+                base = ev(e.func.value, env, depth + 1)
+                if isinstance(base, dict):
+                    mutations.append((e.lineno, " ".join(ast.unparse(e).split())))
+                    k = ev(e.args[0], env, depth + 1)
+                    if len(e.args) == 2:
+                        return base.get(k, ev(e.args[1], env, depth + 1))
+                    return base[k]
         if isinstance(e, ast.Dict) and all(isinstance(k, ast.Constant) for k in e.keys):
             return {k.value: ev(v, env, depth + 1) for k, v in zip(e.keys, e.values)}
         raise Unknown(ast.unparse(e)[:50])
 
     entries, parts = [], []
+    mutations = []
 
     def run(stmts, env):
         for st in stmts:
@@ -431,6 +441,11 @@ def tz_model(ctx, rule):
                     raise Unknown("for-else")
             elif isinstance(st, ast.Assign) and len(st.targets) == 1 and isinstance(st.targets[0], ast.Name):
                 env[st.targets[0].id] = ev(st.value, env)
+            elif isinstance(st, ast.Delete) and all(isinstance(t_, ast.Subscript) for t_ in st.targets):
+                mutations.append((st.lineno, " ".join(ast.unparse(st).split())))      # del tz_info[...]: same effect as pop, value unused
+            elif isinstance(st, ast.Expr) and isinstance(st.value, ast.Call) and isinstance(st.value.func, ast.Attribute) \
+                    and st.value.func.attr == "pop" and ast.unparse(st.value.func.value) != sink:
+                ev(st.value, env)
             elif isinstance(st, ast.Expr) and isinstance(st.value, ast.Call) and ast.unparse(st.value.func) == sink + ".append" and len(st.value.args) == 1:
                 parts.append(ev(st.value.args[0], env))
             elif isinstance(st, ast.Expr) and isinstance(st.value, ast.Yield) and st.value.value is not None:
@@ -449,7 +464,24 @@ def tz_model(ctx, rule):
         raise AnalysisError(rule, "build_tz_offsets uses a construct outside the modelled table-building language: %s" % e)
     except (KeyError, IndexError, TypeError, ValueError) as e:
         raise AnalysisError(rule, "build_tz_offsets could not be evaluated over timezones.py: %s: %s" % (type(e).__name__, e))
+    seen_m = []
+    for m_ in mutations:
+        if m_ not in seen_m:
+            seen_m.append(m_)
+    ctx.tz_mutations = seen_m
     return tl, entries, parts
+
+
+def tz_source_untouched_rule(ctx, chk, rule):
+    """build_tz_offsets reads the module-level literal `timezone_info_list`; it may run more than once in a process (a cache found damaged
+    again, BUILD_TZ_CACHE) and every run must see the same source: no pop / del on the table's dicts while expanding them."""
+    tz_model(ctx, rule)
+    f = ctx.ix.func("dateparser.timezone_parser:build_tz_offsets")
+    muts = getattr(ctx, "tz_mutations", [])
+    chk.ob(rule, "build_tz_offsets leaves timezones.timezone_info_list as it found it", not muts,
+           "%s removes keys from the source table while building: the first build is complete, a second build in the same process "
+           "(and the cache it writes) lacks the entries that depended on them" % "; ".join("line %d `%s`" % m for m in muts[:3]),
+           key={"function": f.key, "construct": "source table mutated"}, file=f.file, function=f.qual, line=muts[0][0] if muts else f.node.lineno)
 
 
 def _is_regex_reduce(v):
@@ -464,6 +496,7 @@ R_I, R_U, R_V0, R_V1 = 0x2, 0x20, 0x2000, 0x100
 def r2(ctx, chk):
     rule = "C16.R2"
     tl, entries, parts = tz_model(ctx, rule)
+    tz_source_untouched_rule(ctx, chk, rule)
     chk.floor(rule, len(entries), 500, "timezone table entries rebuilt from timezones.py")
     m = ctx.ix.module("dateparser.timezone_parser")
     cp = m.assigns.get("CACHE_PATH")
@@ -534,6 +567,19 @@ def r2(ctx, chk):
         ("_search_regex_ignorecase = re.compile('|'.join(%s), re.IGNORECASE)" % m_.group(1)) in t
     if not ok:
         raise AnalysisError(rule, "_load_offsets rebuild statements changed")
+    # ... and it is still the list the generator filled: the name is not rebound between the generator call and the two compiles
+    from ..core.cfg import CFG
+    g = CFG(lo.node)
+    pv = m_.group(1)
+    gen = [s_ for s_ in iter_own_stmts(lo.node.body) if isinstance(s_, ast.Assign) and "build_tz_offsets(%s)" % pv in ast.unparse(s_.value)]
+    comp = [s_ for s_ in iter_own_stmts(lo.node.body) if isinstance(s_, ast.Assign) and ast.unparse(s_.value).startswith("re.compile('|'.join(%s)" % pv)]
+    rd0 = g.reaching_defs(pv).get(next(iter(g.nodes_of(gen[0]))), set()) if gen else set()
+    for c_ in comp:
+        rd = g.reaching_defs(pv).get(next(iter(g.nodes_of(c_))), set())
+        chk.ob(rule, "_load_offsets line %d compiles the parts exactly as the generator appended them" % c_.lineno, bool(rd0) and rd == rd0,
+               "`%s` is rebound between build_tz_offsets(%s) and the compile (%s): the rebuilt search regex differs from the one the "
+               "shipped cache holds" % (pv, pv, "; ".join(" ".join(ast.unparse(g.nodes[d].stmt).split())[:60] for d in sorted(rd - rd0) if g.nodes[d].stmt is not None)),
+               key={"function": lo.key, "construct": "parts list rebound"}, file=lo.file, function=lo.qual, line=c_.lineno)
     chk.sample({"rule": rule, "entries": len(entries), "pickle_protocol": proto, "opcodes": nops, "hash": want_h,
                 "first": list(entries[0]), "mismatching_entries": bad})
     chk.assume("the compiled-code blob stored with each pickled regex corresponds to its (pattern, flags) pair (regex's own pickling)")
